@@ -69,14 +69,30 @@ def both(op):
     return ["obj 0", op, "obj 1", op]
 
 
-def lazy_case(cid, rng, b, nsec, nseg, ops=None, with_save=False, ctor="plain"):
+def lazy_case(cid, rng, b, nsec, nseg, ops=None, with_save=False, ctor="plain", tables=None):
     kind = rng.choice(["str", "file"])
     lines = ["obj 0", "ctor " + ctor, "load %s 0 %s" % (kind, hx(b)), "obj 1", "ctor " + ctor, "load %s 1 %s" % (kind, hx(b))]
+    # accessor objects kept alive across the data requests and releases (a dynamic, a string, a symbol and a
+    # relocation accessor on the sections of those types): what they return must not depend on when the section's
+    # data were fetched or released either
+    acc_ops = []
+    if tables:
+        for k, (newop, qops) in enumerate([("dynnew", ["dynnum %d", "dynget %d {i}"]), ("strnew", ["strgetk %d {i}"]),
+                                           ("symnew", ["symnumk %d", "symgetk %d {i}"]), ("relnew", ["relnumk %d", "relgetk %d {i}"])]):
+            secs_ = tables.get(newop, [])
+            if secs_:
+                sec_ = rng.choice(secs_)
+                lines += both("%s %d %d" % (newop, k, sec_))
+                acc_ops.append((k, sec_, [q % k for q in qops]))
     if ops is None:
         ops = []
         for _ in range(rng.randint(0, 24)):
             r = rng.random()
-            if r < 0.4 and nsec:
+            if acc_ops and r < 0.35:
+                k, sec_, qs = rng.choice(acc_ops)
+                ops.append(rng.choice(qs).replace("{i}", str(rng.randint(0, 3))) if rng.random() < 0.6 else
+                           rng.choice(["free %d" % sec_, "getdata %d" % sec_]))
+            elif r < 0.4 and nsec:
                 ops.append("getdata %d" % rng.randrange(nsec))
             elif r < 0.65 and nsec:
                 ops.append("free %d" % rng.randrange(nsec))
@@ -84,6 +100,10 @@ def lazy_case(cid, rng, b, nsec, nseg, ops=None, with_save=False, ctor="plain"):
                 ops.append("segdata %d" % rng.randrange(nseg))
             elif nseg:
                 ops.append("segfree %d" % rng.randrange(nseg))
+    # every kept accessor at least once through: query, release its section, query, fetch, query
+    for k, sec_, qs in acc_ops:
+        q = [x.replace("{i}", str(j)) for j, x in enumerate(qs)]
+        ops += q + ["free %d" % sec_] + q + ["getdata %d" % rng.randrange(max(nsec, 1)), "getdata %d" % sec_] + q
     for op in ops:
         lines += both(op)
     tail = ("obsall", "dump", "queryall") + (("save",) if with_save else ())
@@ -226,7 +246,11 @@ def generate(rng, tier):
         im, b = imgs[i % len(imgs)]
         # save is included for images whose addresses are ordinary (typed images, examples): random images carry
         # full-width addresses, for which the writer pads by terabytes
-        cases.append(lazy_case("l%d" % i, rng, b, len(im.sections), len(im.segments), with_save=safe_to_save(im)))
+        tables = {"dynnew": [k for k, s_ in enumerate(im.sections) if s_["type"] == 6],
+                  "strnew": [k for k, s_ in enumerate(im.sections) if s_["type"] == 3],
+                  "symnew": [k for k, s_ in enumerate(im.sections) if s_["type"] in (2, 11)],
+                  "relnew": [k for k, s_ in enumerate(im.sections) if s_["type"] in (4, 9)]} if i % 2 == 0 else None
+        cases.append(lazy_case("l%d" % i, rng, b, len(im.sections), len(im.segments), with_save=safe_to_save(im), tables=tables))
     # objects with a compression interface and images in which data sections are flagged compressed
     # (SHF_COMPRESSED / SHF_RPX_DEFLATE): what the interface makes of the section must not depend on when it is loaded
     import struct as _st
